@@ -19,7 +19,7 @@ WORK = VERIF / "work"
 EVIDENCE = VERIF / "evidence"
 PY = "/venv/bin/python"
 TLA_CP = "/opt/veriftools/tla/tla2tools.jar:/opt/veriftools/tla/CommunityModules-deps.jar"
-NCPU = min(16, os.cpu_count() or 4)
+NCPU = max(2, min(16, int(os.environ.get("VERIF_NCPU", "0") or 0) or (os.cpu_count() or 4)))
 
 
 def seed() -> int:
